@@ -15,7 +15,7 @@ from __future__ import annotations
 from fractions import Fraction
 
 from ..affine import Lin, lin
-from ..facts import abs_range, atoms, call_is, equality_atoms, index_of, meth_is, slice_bounds, strip
+from ..facts import abs_range, atoms, call_is, digest_parts, equality_atoms, index_of, meth_is, slice_bounds, strip
 from ..intervals import ceval, iv_of
 from ..model import AnalysisError
 from ..seq import Byte, Const, Digest, Field, Layouts, Opaque, flatten, show_layout, total
@@ -195,8 +195,9 @@ def run(ctx):
         tag = None
         for a, b in equality_atoms(facts):
             for x, y in ((a, b), (b, a)):
-                if meth_is(x, "digest") and call_is(x[1][1], "hashlib.sha256"):
-                    tag = (x[1][1][2][0], strip(y))
+                dp = digest_parts(x) if meth_is(x, "digest") else None     # one-shot, incremental .update() and hashlib.new spellings
+                if dp is not None and dp[0] == "sha256" and dp[1]:
+                    tag = (dp[1], strip(y))
         if not ctx.ob("C05.e", DEC, tag is not None, "return is dominated by a full-width SHA-256 tag equality", func=DEC, file=file, node=node2,
                       fail="a payload can be returned on a path where the SHA-256 tag was not (fully) compared"):
             continue
@@ -207,16 +208,8 @@ def run(ctx):
                "received tag = packet[-32:]", func=DEC, file=file, node=node2, detail={"tag": show(rx)},
                fail=f"received tag is read from {show(rx)}, encoder appends it as the last 32 bytes")
         # hashed = bytes(packet[:6]) + decrypted(packet[6:-32])
-        hs = strip(hashed)
-        parts = []
-
-        def cat(x):
-            x = strip(x)
-            if x[0] == "bin" and x[1] == "+":
-                cat(x[2]), cat(x[3])
-            else:
-                parts.append(x)
-        cat(hs)
+        parts = list(hashed)
+        hs = parts[0] if len(parts) == 1 else ("tuple", tuple(parts))
         hdr_ok = len(parts) == 2 and slice_bounds(parts[0]) is not None and strip(slice_bounds(parts[0])[0]) == ("param", pk) \
             and slice_bounds(parts[0])[1] in (None, 0) and slice_bounds(parts[0])[2] == 6
         dec_ok = len(parts) == 2 and call_is(parts[1], f"{SEC}.decrypt_aes_cbc") and len(parts[1][2]) >= 2 \
@@ -286,6 +279,20 @@ def run(ctx):
                     ty, tyv = True, y[3]
         target = ret[1][1] if ret[0] == "call" and ret[1][0] == "func" else None
         want = {3: DEC, 1: f"{V3}._decode_handshake_response"}.get(tyv)
+        if tyv == 1:
+            # the handshake reply is the raw bytes after the 6-byte header and the 2-byte counter - through the decoder or inline
+            hr = None
+            if target == want and want in prog.funcs and ret[2] and strip(ret[2][-1]) == ("param", pp):
+                hf = ctx.fn(want)
+                r2 = [t for _pc, t, n, _ in summarize(prog, hf).returns if n is not None]
+                hr = abs_range(r2[0]) if len(r2) == 1 else None
+                hr = (("param", pp),) + tuple(hr[1:]) if hr is not None and hr[0] == ("param", hf.params[-1]) else None
+            elif target is None:
+                hr = abs_range(ret)
+            if hr is not None and hr[0] == ("param", pp) and hr[1] == 8 and hr[2] in (None, 0):
+                target = want
+            else:
+                target = target if target != want else "handshake decoder with another range"
         ctx.ob("C05.c", PROC, mk and mg and ty and target == want,
                f"type {tyv} is dispatched after marker 8370, magic 0x20 and low-nibble type tests to {str(target).split('.')[-1]}",
                func=PROC, file=file, node=node2, detail={"facts": [show(f)[:80] for f in facts]},
